@@ -22,7 +22,7 @@ ASSUMPTIONS = ["gateway models in gateways/sim.py (reports in bus order, one out
                "daliserver: status 0 none, 1 answer, 255 garbled; ATX hat: 'N' none, 'Jhh' answer"]
 EXHAUSTIVE = {"quick": False, "thorough": False}
 REQUIRED_ANCHORS = {"all": ["sends_checked", "silent_outcomes", "value_outcomes", "error_outcomes", "multi_caller_runs",
-                            "daliserver_checked", "atx_checked", "dfs_runs", "integration_runs", "abandon_runs", "queries_abandoned", "twin_runs", "drivers_tridonic", "drivers_hasseb", "drivers_luba", "drivers_sci"]}
+                            "daliserver_checked", "atx_checked", "dfs_runs", "integration_runs", "abandon_runs", "queries_abandoned", "twin_runs", "late_answer_runs", "drivers_tridonic", "drivers_hasseb", "drivers_luba", "drivers_sci"]}
 SPURIOUS_DRIVERS = ("tridonic", "hasseb")
 SHARD_TIMEOUT = {"quick": 600, "thorough": 3000}
 
@@ -35,6 +35,8 @@ def plan(tier, seed):
         for p in range(parts):
             sh.append({"kind": "async", "driver": d, "part": p, "n": n // parts})
     sh.append({"kind": "sync"})
+    for d in ("luba", "sci"):
+        sh.append({"kind": "late", "driver": d, "n": 60 if tier == "quick" else 1500})
     for d in simlib.DRIVERS:
         sh.append({"kind": "twin", "driver": d, "n": 60 if tier == "quick" else 1500})
     for d in ("tridonic", "hasseb"):
@@ -337,6 +339,76 @@ def run_abandon_case(driver, seed, i, res):
                 res.violation(f"C16/{driver}/abandon/wrong-answer", f"a query was abandoned (its answer 0x5a arrived when nobody waited); "
                               f"{pause}s later send({c}): the bus gave {ans}, the caller received "
                               f"{None if raw is None else ('error' if raw.error else raw.as_integer)!r}", wit)
+                return
+    finally:
+        sim.close()
+
+
+def run_late_case(driver, seed, i, res):
+    """Serial gateways: the answer to one query is reported after the driver has stopped waiting for it.  That query may come
+    back as 'no answer'; the commands that follow after a pause - in the same sequence or as separate sends - get their own."""
+    from dali import frame as F
+    from dali import sequences as S
+    r = rng(seed, "C16", "late", driver, i)
+    q = [simlib.make_command(r, "query", 0, k, driver) for k in range(4)]
+    vals = {(len(c.frame), c.frame.as_integer): ("ok", 0x40 + k) if k != 2 else None for k, c in enumerate(q)}
+    picker = simlib.Picker(r)
+    sim = simlib.Sim(driver, picker, answer=lambda w, v, idx, dt: vals.get((w, v)))
+    as_sequence = i % 2 == 0
+    late_by = r.choice([0.05, 0.08, 0.12])
+    pause = r.choice([0.25, 0.4])
+    got = {}
+
+    async def main(sim):
+        await sim.connect()
+        sim.dev.late_answers[(len(q[0].frame), q[0].frame.as_integer)] = late_by
+        if as_sequence:
+            def g():
+                out = [(yield q[0])]
+                yield S.sleep(pause)
+                for c in q[1:]:
+                    out.append((yield c))
+                return out
+            try:
+                got["r"] = ("ok", await sim.driver.run_sequence(g()))
+            except Exception as e:
+                got["r"] = ("exc", e)
+        else:
+            out = []
+            try:
+                out.append(await sim.driver.send(q[0]))
+                await asyncio.sleep(pause)
+                for c in q[1:]:
+                    out.append(await sim.driver.send(c))
+                got["r"] = ("ok", out)
+            except Exception as e:
+                got["r"] = ("exc", e)
+        await asyncio.sleep(0.5)
+        return True
+    out, stalled = sim.run(main)
+    res.evaluations += 1
+    res.hit("late_answer_runs")
+    wit = {"driver": driver, "seed": seed, "case": i, "late": True, "in_sequence": as_sequence, "late_by": late_by, "pause": pause,
+           "commands": [str(c) for c in q]}
+    try:
+        if simlib.detached(out):
+            res.inconclusive.append("harness detached: " + str(out))
+            return
+        if stalled or out is not True or got.get("r", ("exc",))[0] != "ok":
+            res.violation(f"C16/{driver}/late-answer/hang-or-raise", f"ended with {'a stall' if stalled else repr(got.get('r', out))}", wit)
+            return
+        for k, (c, val) in enumerate(zip(q, got["r"][1])):
+            ans = vals[(len(c.frame), c.frame.as_integer)]
+            raw = getattr(val, "raw_value", "missing")
+            own = (ans is None and raw is None) or (ans is not None and raw is not None and raw != "missing" and not raw.error and raw.as_integer == ans[1])
+            if k == 0 and raw is None:
+                res.add("late_answer_given_up")
+                continue            # it stopped waiting before the answer came: 'no answer' is what it saw
+            if type(val) is not c.response or not own:
+                res.violation(f"C16/{driver}/late-answer/wrong-answer",
+                              f"the answer to {q[0]} came {late_by}s late; {pause}s afterwards "
+                              f"{'in the same sequence' if as_sequence else 'a new send of'} {c}: the bus gave {ans}, the caller received "
+                              f"{None if raw is None else raw.as_integer if hasattr(raw, 'as_integer') else raw!r}", wit)
                 return
     finally:
         sim.close()
@@ -803,7 +875,9 @@ def run_shard(desc, tier, seed):
     if "replay" in desc:
         for w in desc["replay"]["witnesses"]:
             x = w["witness"]
-            if x.get("twin"):
+            if x.get("late"):
+                run_late_case(x["driver"], x["seed"], x["case"], res)
+            elif x.get("twin"):
                 run_twin_case(x["driver"], x["seed"], x["case"], res)
             elif x.get("abandon"):
                 run_abandon_case(x["driver"], x["seed"], x["case"], res)
@@ -817,7 +891,14 @@ def run_shard(desc, tier, seed):
                 run_daliserver(seed, res)
                 run_atx(seed, res)
         return res
-    if desc["kind"] == "twin":
+    if desc["kind"] == "late":
+        for i in range(desc["n"]):
+            try:
+                run_late_case(desc["driver"], seed, i, res)
+            except Exception as e:
+                res.inconclusive.append("harness error (late): " + short_tb(e))
+                break
+    elif desc["kind"] == "twin":
         for i in range(desc["n"]):
             try:
                 run_twin_case(desc["driver"], seed, i, res)
